@@ -23,31 +23,31 @@ theorem armDecls_valueCases (k : MatchKind) : ∀ ra : List (Imm × List GStmt),
   | [] => rfl
   | (lhs, body) :: rest => by simp [valueCases, ndDeclsCases, armDecls, armDecls_valueCases k rest]
 
-theorem ConclSw.mono {env : Env} {run run' : GRes (GEnv × Sig) → Prop} {m : Mode} {gρ : GEnv} {ty : Ty} {res : Res Val}
-    (h : ConclSw env run m gρ ty res) (hm : ∀ r, run r → run' r) : ConclSw env run' m gρ ty res := by
+theorem ConclSw.mono {env : Env} {η : Hp} {run run' : GRes (GEnv × Sig) → Prop} {m : Mode} {gρ : GEnv} {ty : Ty} {res : Res Val}
+    (h : ConclSw env η run m gρ ty res) (hm : ∀ r, run r → run' r) : ConclSw env η run' m gρ ty res := by
   cases res with
-  | ok v w' => obtain ⟨gv, gw', h1, h2⟩ := h; exact ⟨gv, gw', hm _ h1, h2⟩
+  | ok v w' => obtain ⟨η1, hle, gv, gw', h1, h2⟩ := h; exact ⟨η1, hle, gv, gw', hm _ h1, h2⟩
   | fail fl w' =>
     cases fl with
-    | panic k => obtain ⟨gw', h1, h2⟩ := h; exact ⟨gw', hm _ h1, h2⟩
+    | panic k => obtain ⟨η1, hle, gw', h1, h2⟩ := h; exact ⟨η1, hle, gw', hm _ h1, h2⟩
     | fuel => trivial
     | stuck s => trivial
 
 /-- a clause that runs `S` as a nested block inherits the conclusion about `S` -/
-theorem conclSw_of_concl {env : Env} {F : GFile} {S : List GStmt} {m : Mode} {gρ : GEnv} {gw : GWorld} {ty : Ty} {res : Res Val}
-    {run : GRes (GEnv × Sig) → Prop} (h : Concl env F S m gρ gw ty res) (hs : ∀ r0, NestS F gρ gw S r0 → run r0) :
-    ConclSw env run m gρ ty res := by
+theorem conclSw_of_concl {env : Env} {η : Hp} {F : GFile} {S : List GStmt} {m : Mode} {gρ : GEnv} {gw : GWorld} {ty : Ty} {res : Res Val}
+    {run : GRes (GEnv × Sig) → Prop} (h : Concl env η F S m gρ gw ty res) (hs : ∀ r0, NestS F gρ gw S r0 → run r0) :
+    ConclSw env η run m gρ ty res := by
   cases res with
   | ok v w' =>
-    obtain ⟨D, gv, gw', hb, h3, h4, h5, _⟩ := h
+    obtain ⟨η1, hle, D, gv, gw', hb, h3, h4, h5, _⟩ := h
     have hn := hs _ (nest_of_block hb)
     simp only [popTo, pop_append D _ gρ (length_post m gρ gv)] at hn
-    exact ⟨gv, gw', hn, h3, h4, h5⟩
+    exact ⟨η1, hle, gv, gw', hn, h3, h4, h5⟩
   | fail fl w' =>
     cases fl with
     | panic k =>
-      obtain ⟨gw', hb, h5⟩ := h
-      exact ⟨gw', hs _ (nest_of_block hb), h5⟩
+      obtain ⟨η1, hle, gw', hb, h5⟩ := h
+      exact ⟨η1, hle, gw', hs _ (nest_of_block hb), h5⟩
     | fuel => trivial
     | stuck s => trivial
 
@@ -63,10 +63,10 @@ theorem lookupVariantName_enum {env : Env} {en : String} {idx : Nat} {d : EnumDe
   simp [lookupVariantName, Goml.Mono.constrName, hd, hv]
 
 /-- what a typed enum value and its Go image look like -/
-theorem enumV_inv {env : Env} {en : String} {i : Nat} {vs : List Val} {gv : GVal}
-    (hty : HasTy env (.enumV en i vs) (.enum en)) (hgv : toGV env (.enumV en i vs) = some gv) :
+theorem enumV_inv {env : Env} {η : Hp} {en : String} {i : Nat} {vs : List Val} {gv : GVal}
+    (hty : HasTy env η (.enumV en i vs) (.enum en)) (hgv : toGV env η (.enumV en i vs) = some gv) :
     ∃ d vname tys gs, en ∈ goodEnums env ∧ env.getEnum en = some d ∧ d.variants[i]? = some (vname, tys) ∧
-      HasTys env vs tys ∧ toGVs env vs = some gs ∧
+      HasTys env η vs tys ∧ toGVs env η vs = some gs ∧
       gv = .struct (variantGoName env en vname) ((fieldNames 0 gs.length).zip gs) := by
   simp only [HasTy] at hty
   obtain ⟨_, hen, hfields⟩ := hty
@@ -80,7 +80,7 @@ theorem enumV_inv {env : Env} {en : String} {i : Nat} {vs : List Val} {gv : GVal
       obtain ⟨vname, tys⟩ := vdef
       rw [hvi] at hfields; simp only at hfields
       simp only [toGV, hd] at hgv
-      cases hgs : toGVs env vs with
+      cases hgs : toGVs env η vs with
       | none => rw [hgs] at hgv; simp at hgv
       | some gs =>
         rw [hgs] at hgv; simp only [hvi, Option.some.injEq] at hgv
@@ -90,7 +90,7 @@ theorem enumV_inv {env : Env} {en : String} {i : Nat} {vs : List Val} {gv : GVal
 
 theorem stepME {env : Env} {file : AFile} {G : List String} {P : Prog} {F : GFile} (hl : Link env file G P F) {n : Nat}
     (ha : SimA env file G P F n) (hme : SimME env file G P F n) : SimME env file G P F (n + 1) := by
-  intro m st arms d ty Γ K ρ w gρ gw Bad x en i vs gv hfa hfd hrel hkrel hw hlk hty hgv hinv htgt hus hcal
+  intro m st arms d ty η Γ K ρ w gρ gw Bad x en i vs gv hfa hfd hrel hkrel hw hlk hty hgv hinv htgt hus hcal
   -- the scrutinee's variant and its Go struct
   have hty0 := hty
   have hgv0 := hgv
@@ -109,7 +109,7 @@ theorem stepME {env : Env} {file : AFile} {G : List String} {P : Prog} {F : GFil
       obtain ⟨hfe, hte⟩ := hfd
       have hte' := scalarEq_eq hte
       simp only [compileArms, compileDflt, armDecls, optDecls, List.nil_append] at hinv
-      have hA := ha m st e Γ K ρ w gρ gw Bad hfe hrel hkrel hw hinv (hte' ▸ htgt) hus
+      have hA := ha m st e η Γ K ρ w gρ gw Bad hfe hrel hkrel hw hinv (hte' ▸ htgt) hus
         (fun c hc => hcal c (by simp [calleesArms, calleesD, hc]))
       rw [hte'] at hA
       exact conclSw_of_concl hA (fun r0 hn => tsw_nil_some hn)
@@ -150,14 +150,14 @@ theorem stepME {env : Env} {file : AFile} {G : List String} {P : Prog} {F : GFil
         simp only [beq_self_eq_true, if_true]
         rw [hvi] at hvar; injection hvar with hvar; injection hvar with h1 h2; subst h1; subst h2
         have hk' : KRel ((x, idx) :: K) ρ := hkrel.know hlk
-        have hA := ha m st body Γ ((x, idx) :: K) ρ w gρ gw Bad hfb hrel hk' hw (hSb ▸ hinvb) (htb' ▸ htgt) hus
+        have hA := ha m st body η Γ ((x, idx) :: K) ρ w gρ gw Bad hfb hrel hk' hw (hSb ▸ hinvb) (htb' ▸ htgt) hus
           (fun c hc => hcal c (by simp [calleesArms, hc]))
         rw [hSb, htb'] at hA
         refine conclSw_of_concl hA (fun r0 hn => tsw_cons_hit ?_ hn)
         simp [tcaseHit, variantGoName]
       · have hne : (idx == i) = false := by simpa using hidx
         simp only [hne, Bool.false_eq_true, if_false]
-        have hR := hme m rb.2 rest d ty Γ K ρ w gρ gw Bad x en i vs _ hfr hfd hrel hkrel hw hlk
+        have hR := hme m rb.2 rest d ty η Γ K ρ w gρ gw Bad x en i vs _ hfr hfd hrel hkrel hw hlk
           hty0 hgv0 hinvr htgt hus
           (fun c hc => hcal c (by
             simp only [calleesArms, List.mem_append] at hc ⊢
@@ -180,8 +180,8 @@ theorem stepME {env : Env} {file : AFile} {G : List String} {P : Prog} {F : GFil
 /-! ### bool / integer / string scrutinee: value switch -/
 
 /-- comparable scalars: `==` on the Go images is `valEq` -/
-theorem valEq_toGV {env : Env} {a b : Val} {ga gb : GVal} {t : Ty} (ha : HasTy env a t) (hb : HasTy env b t)
-    (hs : scalarTy t = true) (h1 : toGV env a = some ga) (h2 : toGV env b = some gb) : gvalEq ga gb = Sem.valEq a b := by
+theorem valEq_toGV {env : Env} {η : Hp} {a b : Val} {ga gb : GVal} {t : Ty} (ha : HasTy env η a t) (hb : HasTy env η b t)
+    (hs : scalarTy t = true) (h1 : toGV env η a = some ga) (h2 : toGV env η b = some gb) : gvalEq ga gb = Sem.valEq a b := by
   cases t <;> simp [scalarTy] at hs
   · have := hasTy_unit ha; subst this; have := hasTy_unit hb; subst this
     simp [toGV] at h1 h2; subst h1; subst h2; rfl
@@ -203,7 +203,7 @@ theorem caseLabel_lit {env : Env} {p : Prim} {sty : Ty} (hs : switchTy sty = tru
 
 theorem stepMV {env : Env} {file : AFile} {G : List String} {P : Prog} {F : GFile} (hl : Link env file G P F) {n : Nat}
     (ha : SimA env file G P F n) (hmv : SimMV env file G P F n) : SimMV env file G P F (n + 1) := by
-  intro m st arms d ty sty Γ K ρ w gρ gw Bad v gv hsw hfa hfd hrel hkrel hw hty hgv hinv htgt hus hcal
+  intro m st arms d ty sty η Γ K ρ w gρ gw Bad v gv hsw hfa hfd hrel hkrel hw hty hgv hinv htgt hus hcal
   cases arms with
   | nil =>
     simp only [armsToExpr, compileArms, valueCases]
@@ -216,7 +216,7 @@ theorem stepMV {env : Env} {file : AFile} {G : List String} {P : Prog} {F : GFil
       obtain ⟨hfe, hte⟩ := hfd
       have hte' := scalarEq_eq hte
       simp only [compileArms, compileDflt, armDecls, optDecls, List.nil_append] at hinv
-      have hA := ha m st e Γ K ρ w gρ gw Bad hfe hrel hkrel hw hinv (hte' ▸ htgt) hus
+      have hA := ha m st e η Γ K ρ w gρ gw Bad hfe hrel hkrel hw hinv (hte' ▸ htgt) hus
         (fun c hc => hcal c (by simp [calleesArms, calleesD, hc]))
       rw [hte'] at hA
       exact conclSw_of_concl hA (fun r0 hn => sw_nil_some hn)
@@ -254,13 +254,13 @@ theorem stepMV {env : Env} {file : AFile} {G : List String} {P : Prog} {F : GFil
       have heq := valEq_toGV h4l hty (switchTy_scalar hsw) h3l hgv
       by_cases hhit : (Sem.valEq (Sem.primVal p) v).getD false = true
       · simp only [hhit, if_true]
-        have hA := ha m st body Γ K ρ w gρ gw Bad hfb hrel hkrel hw (hSb ▸ hinvb) (htb' ▸ htgt) hus
+        have hA := ha m st body η Γ K ρ w gρ gw Bad hfb hrel hkrel hw (hSb ▸ hinvb) (htb' ▸ htgt) hus
           (fun c hc => hcal c (by simp [calleesArms, hc]))
         rw [hSb, htb'] at hA
         exact conclSw_of_concl hA (fun r0 hn => sw_cons_hit (hgl gw) (by rw [heq]; exact hhit) hn)
       · have hmiss : (Sem.valEq (Sem.primVal p) v).getD false = false := by simpa using hhit
         simp only [hmiss, Bool.false_eq_true, if_false]
-        have hR := hmv m rb.2 rest d ty pty Γ K ρ w gρ gw Bad v gv hsw hfr hfd hrel hkrel hw hty hgv hinvr htgt hus
+        have hR := hmv m rb.2 rest d ty pty η Γ K ρ w gρ gw Bad v gv hsw hfr hfd hrel hkrel hw hty hgv hinvr htgt hus
           (fun c hc => hcal c (by
             simp only [calleesArms, List.mem_append] at hc ⊢
             rcases hc with hc | hc
@@ -272,7 +272,7 @@ theorem stepMV {env : Env} {file : AFile} {G : List String} {P : Prog} {F : GFil
 
 theorem stepMU {env : Env} {file : AFile} {G : List String} {P : Prog} {F : GFile} {n : Nat}
     (ha : SimA env file G P F n) : SimMU env file G P F (n + 1) := by
-  intro m st arms d ty Γ K ρ w gρ gw Bad hfrag hrel hkrel hw hinv htgt hus hcal
+  intro m st arms d ty η Γ K ρ w gρ gw Bad hfrag hrel hkrel hw hinv htgt hus hcal
   cases arms with
   | nil =>
     simp only [fragUnit, List.isEmpty_nil, if_true, Bool.and_eq_true] at hfrag
@@ -286,7 +286,7 @@ theorem stepMU {env : Env} {file : AFile} {G : List String} {P : Prog} {F : GFil
       simp only [fragD, Bool.and_eq_true] at hfrag
       obtain ⟨_, hfe, hte⟩ := hfrag
       have hte' := scalarEq_eq hte
-      have hA := ha m st e Γ K ρ w gρ gw Bad hfe hrel hkrel hw hinv (hte' ▸ htgt) hus
+      have hA := ha m st e η Γ K ρ w gρ gw Bad hfe hrel hkrel hw hinv (hte' ▸ htgt) hus
         (fun c hc => hcal c (by simp [calleesArms, calleesD, hc]))
       rw [hte'] at hA
       exact hA
@@ -306,7 +306,7 @@ theorem stepMU {env : Env} {file : AFile} {G : List String} {P : Prog} {F : GFil
     rw [Sem.evalArms.eq_def]; simp only
     have hm : Sem.armMatches (.prim .unit) .unit = true := rfl
     simp only [hm, if_true]
-    have hA := ha m st body Γ K ρ w gρ gw Bad hfb hrel hkrel hw hinv (htb' ▸ htgt) hus
+    have hA := ha m st body η Γ K ρ w gρ gw Bad hfb hrel hkrel hw hinv (htb' ▸ htgt) hus
       (fun c hc => hcal c (by simp [calleesArms, hc]))
     rw [htb'] at hA
     exact hA
